@@ -1,1 +1,264 @@
-//! Verification doors: socks (cfg(trusttunnel_verif) only)
+//! Verification doors: SOCKS5 upstream dialogue (cfg(trusttunnel_verif) only)
+//!
+//! * `connect`: `socks5_client::connect` over any in-memory transport, with the
+//!   credentials converted by the real `make_auth` / `make_extended_auth`;
+//! * `make_auth_view`: the converters alone;
+//! * `Association`: `UdpAssociation::{send_to, recv_from}`;
+//! * `read_reply`: the reply reader alone;
+//! * `SocksForwarder::tcp_connect`: the forwarder's TCP connector end to end (real TCP
+//!   connection to the configured SOCKS5 server), for the error mapping.
+//!
+//! Everything is returned as plain data.
+
+use crate::forwarder::Forwarder;
+use crate::settings::{Settings, TlsHostsSettings};
+use crate::{authentication, core, forwarder, log_utils, net_utils, socks5_client, socks5_forwarder, tunnel};
+use std::borrow::Cow;
+use std::io::ErrorKind;
+use std::net::{IpAddr, SocketAddr};
+use std::sync::Arc;
+use tokio::io::{AsyncRead, AsyncWrite};
+
+/// The client's credentials as the tunnel hands them to the forwarder
+#[derive(Debug, Clone)]
+pub enum Creds {
+    None,
+    /// what followed `Basic ` in `Proxy-Authorization`
+    Basic(String),
+    /// the SNI authentication token
+    Sni(String),
+}
+
+#[derive(Debug, Clone)]
+pub struct AuthParams {
+    pub creds: Creds,
+    /// `Socks5ForwarderSettings.extended_auth`
+    pub extended: bool,
+    pub tls_domain: String,
+    pub client_address: IpAddr,
+    pub user_agent: Option<String>,
+}
+
+/// Plain view of `socks5_client::Authentication`
+#[derive(Debug, Clone, PartialEq, Eq)]
+pub enum AuthView {
+    UserPass { user: Vec<u8>, pass: Vec<u8> },
+    /// (extension name, value octets) in order
+    Extended(Vec<(&'static str, Vec<u8>)>),
+}
+
+#[derive(Debug, Clone)]
+pub enum Target {
+    Ip(SocketAddr),
+    Domain(String, u16),
+    UdpAssociate,
+}
+
+#[derive(Debug, Clone, PartialEq, Eq)]
+pub enum ErrView {
+    Io(ErrorKind, String),
+    Protocol(String),
+    Authentication(String),
+}
+
+pub enum Outcome<IO> {
+    /// the credentials could not be converted; `connect` was not called
+    MakeAuthError(String),
+    Tcp(IO),
+    Udp(Association<IO>),
+    /// the server's failure reply code
+    Failure(u8),
+    Err(ErrView),
+}
+
+pub struct Association<IO>(socks5_client::UdpAssociation<IO>);
+
+fn err_view(e: socks5_client::Error) -> ErrView {
+    match e {
+        socks5_client::Error::Io(e) => ErrView::Io(e.kind(), e.to_string()),
+        socks5_client::Error::Protocol(s) => ErrView::Protocol(s),
+        socks5_client::Error::Authentication(s) => ErrView::Authentication(s),
+    }
+}
+
+fn source(creds: &Creds) -> Option<authentication::Source<'_>> {
+    match creds {
+        Creds::None => None,
+        Creds::Basic(x) => Some(authentication::Source::ProxyBasic(Cow::Borrowed(x))),
+        Creds::Sni(x) => Some(authentication::Source::Sni(Cow::Borrowed(x))),
+    }
+}
+
+fn convert(params: &AuthParams) -> Result<Option<socks5_client::Authentication<'_>>, String> {
+    source(&params.creds)
+        .map(|s| {
+            socks5_forwarder::verif_make_auth(
+                s,
+                params.extended,
+                &params.tls_domain,
+                &params.client_address,
+                params.user_agent.as_deref(),
+            )
+        })
+        .transpose()
+}
+
+/// `make_auth` / `make_extended_auth` alone
+pub fn make_auth_view(params: &AuthParams) -> Result<Option<AuthView>, String> {
+    Ok(convert(params)?.map(|a| match a {
+        socks5_client::Authentication::UsernamePassword(u, p) => AuthView::UserPass {
+            user: u.as_bytes().to_vec(),
+            pass: p.as_bytes().to_vec(),
+        },
+        socks5_client::Authentication::Extended(values) => AuthView::Extended(
+            values
+                .into_iter()
+                .map(|v| match v {
+                    socks5_client::ExtendedAuthenticationValue::Domain(x) => {
+                        ("domain", x.as_bytes().to_vec())
+                    }
+                    socks5_client::ExtendedAuthenticationValue::ClientAddress(IpAddr::V4(x)) => {
+                        ("client_address", x.octets().to_vec())
+                    }
+                    socks5_client::ExtendedAuthenticationValue::ClientAddress(IpAddr::V6(x)) => {
+                        ("client_address", x.octets().to_vec())
+                    }
+                    socks5_client::ExtendedAuthenticationValue::UserAgent(x) => {
+                        ("user_agent", x.as_bytes().to_vec())
+                    }
+                    socks5_client::ExtendedAuthenticationValue::BasicProxyAuth(x) => {
+                        ("proxy_auth", x.as_bytes().to_vec())
+                    }
+                    socks5_client::ExtendedAuthenticationValue::SniAuth => ("sni_auth", Vec::new()),
+                })
+                .collect(),
+        ),
+    }))
+}
+
+/// The whole client dialogue over `io`
+pub async fn connect<IO>(io: IO, params: &AuthParams, target: &Target) -> Outcome<IO>
+where
+    IO: AsyncRead + AsyncWrite + Send + Unpin,
+{
+    let auth = match convert(params) {
+        Ok(a) => a,
+        Err(e) => return Outcome::MakeAuthError(e),
+    };
+    let request = match target {
+        Target::Ip(a) => {
+            socks5_client::Request::Connect(socks5_client::Address::IpAddress(a.ip()), a.port())
+        }
+        Target::Domain(name, port) => socks5_client::Request::Connect(
+            socks5_client::Address::DomainName(Cow::Borrowed(name)),
+            *port,
+        ),
+        Target::UdpAssociate => socks5_client::Request::UdpAssociate,
+    };
+    match socks5_client::connect(io, auth, request).await {
+        Ok(socks5_client::ConnectResult::TcpConnection(io)) => Outcome::Tcp(io),
+        Ok(socks5_client::ConnectResult::UdpAssociation(a)) => Outcome::Udp(Association(a)),
+        Ok(socks5_client::ConnectResult::Failure(code)) => Outcome::Failure(code as u8),
+        Err(e) => Outcome::Err(err_view(e)),
+    }
+}
+
+impl<IO> Association<IO> {
+    pub fn local_addr(&self) -> std::io::Result<SocketAddr> {
+        self.0.get_ref().local_addr()
+    }
+
+    pub async fn send_to(&self, data: &[u8], destination: SocketAddr) -> Result<(), ErrView> {
+        self.0.send_to(data, destination).await.map_err(err_view)
+    }
+
+    /// `recv_from` into a buffer of `cap` octets: (reported length, source, buffer contents)
+    pub async fn recv_from(&self, cap: usize) -> Result<(usize, SocketAddr, Vec<u8>), ErrView> {
+        let mut buf = vec![0u8; cap];
+        let (n, peer) = self.0.recv_from(&mut buf).await.map_err(err_view)?;
+        buf.truncate(n.min(cap));
+        Ok((n, peer, buf))
+    }
+}
+
+/// Plain view of a parsed reply
+#[derive(Debug, Clone, PartialEq, Eq)]
+pub struct ReplyView {
+    pub code: u8,
+    /// "ip" or "name"
+    pub kind: &'static str,
+    pub addr: Vec<u8>,
+    pub port: u16,
+}
+
+/// The reply reader alone
+pub async fn read_reply<IO>(io: &mut IO) -> Result<ReplyView, ErrView>
+where
+    IO: AsyncRead + Unpin + Send,
+{
+    let (code, addr, port) = socks5_client::verif_access::read_reply(io)
+        .await
+        .map_err(err_view)?;
+    let (kind, addr) = match addr {
+        socks5_client::Address::IpAddress(IpAddr::V4(x)) => ("ip", x.octets().to_vec()),
+        socks5_client::Address::IpAddress(IpAddr::V6(x)) => ("ip", x.octets().to_vec()),
+        socks5_client::Address::DomainName(x) => ("name", x.as_bytes().to_vec()),
+    };
+    Ok(ReplyView { code, kind, addr, port })
+}
+
+/// What the tunnel is told about a TCP connection request
+#[derive(Debug, Clone, PartialEq, Eq)]
+pub enum ReqOutcome {
+    Established,
+    HostUnreachable,
+    Timeout,
+    Authentication(String),
+    Io(ErrorKind, String),
+    DnsNonroutable,
+    DnsLoopback,
+    Other(String),
+}
+
+/// `Socks5Forwarder` on a context made of `settings` (which must select the SOCKS5 forwarder)
+pub struct SocksForwarder(Arc<core::Context>);
+
+impl SocksForwarder {
+    pub fn new(settings: Settings, tls_hosts: &TlsHostsSettings) -> std::io::Result<Self> {
+        Ok(Self(Arc::new(core::Context::verif_socks_new(settings, tls_hosts)?)))
+    }
+
+    /// `TcpConnector::connect` of the SOCKS5 forwarder
+    pub async fn tcp_connect(
+        &self,
+        creds: &Creds,
+        tls_domain: &str,
+        client_address: IpAddr,
+        user_agent: Option<&str>,
+        target: &Target,
+    ) -> ReqOutcome {
+        let destination = match target {
+            Target::Ip(a) => net_utils::TcpDestination::Address(*a),
+            Target::Domain(name, port) => net_utils::TcpDestination::HostName((name.clone(), *port)),
+            Target::UdpAssociate => return ReqOutcome::Other("verif: not a TCP target".into()),
+        };
+        let meta = forwarder::TcpConnectionMeta {
+            client_address,
+            destination,
+            auth: source(creds).map(authentication::Source::into_owned),
+            tls_domain: tls_domain.to_string(),
+            user_agent: user_agent.map(String::from),
+        };
+        let connector = socks5_forwarder::Socks5Forwarder::new(self.0.clone()).tcp_connector();
+        match connector.connect(log_utils::IdChain::empty(), meta).await {
+            Ok(_) => ReqOutcome::Established,
+            Err(tunnel::ConnectionError::Io(e)) => ReqOutcome::Io(e.kind(), e.to_string()),
+            Err(tunnel::ConnectionError::Authentication(s)) => ReqOutcome::Authentication(s),
+            Err(tunnel::ConnectionError::Timeout) => ReqOutcome::Timeout,
+            Err(tunnel::ConnectionError::HostUnreachable) => ReqOutcome::HostUnreachable,
+            Err(tunnel::ConnectionError::DnsNonroutable) => ReqOutcome::DnsNonroutable,
+            Err(tunnel::ConnectionError::DnsLoopback) => ReqOutcome::DnsLoopback,
+            Err(tunnel::ConnectionError::Other(s)) => ReqOutcome::Other(s),
+        }
+    }
+}
